@@ -192,6 +192,11 @@ func (p *Conn) checkProxyHeader() error {
 		return err
 	}
 
+	// no address is advertised (e.g. PROXY UNKNOWN): keep the addresses of the connection itself
+	if hdr.Command.IsLocal() || hdr.TransportProtocol.IsUnspec() {
+		return nil
+	}
+
 	// initial real src/dst address
 	srcAddr := net.JoinHostPort(hdr.SourceAddress.String(), fmt.Sprintf("%d", hdr.SourcePort))
 	p.srcAddr, err = net.ResolveTCPAddr(hdr.TransportProtocol.String(), srcAddr)
